@@ -657,6 +657,255 @@ def _history_script(tree, before, kinds, names, mutation, what):
     )
 
 
+
+# ---------------------------------------------------------------- part 4: the composition itself changes
+
+
+def build_loader_handles(tree, leaves, kinds, handles, path=(), hide=None):
+    """like build_loader, but records every composite object under its path so that a history can re-arrange it.
+    `hide` = (path, name): the ChoiceLoader at that path is a subclass with its own lookup rule (it does not have `name`)."""
+    import jinja2
+
+    if tree[0] == "D":
+        ld = build_leaf(kinds[tree[1]], leaves[tree[1]])
+    elif tree[0] == "C":
+        children = [build_loader_handles(c, leaves, kinds, handles, path + (i,), hide) for i, c in enumerate(tree[1])]
+        if hide is not None and hide[0] == path:
+            hidden = hide[1]
+
+            class Hiding(jinja2.ChoiceLoader):
+                def get_source(self, environment, template):
+                    if template == hidden:
+                        raise jinja2.TemplateNotFound(template)
+                    return super().get_source(environment, template)
+
+                def load(self, environment, name, globals=None):
+                    if name == hidden:
+                        raise jinja2.TemplateNotFound(name)
+                    return super().load(environment, name, globals)
+
+            ld = Hiding(children)
+        else:
+            ld = jinja2.ChoiceLoader(children)
+    else:
+        ld = jinja2.PrefixLoader({k: build_loader_handles(c, leaves, kinds, handles, path + (k,), hide) for k, c in tree[1]},
+                                 delimiter=tree[2])
+    handles[path] = ld
+    return ld
+
+
+def composite_paths(tree, path=()):
+    out = []
+    if tree[0] == "C":
+        out.append((path, "C", len(tree[1])))
+        for i, c in enumerate(tree[1]):
+            out += composite_paths(c, path + (i,))
+    elif tree[0] == "P":
+        out.append((path, "P", len(tree[1])))
+        for k, c in tree[1]:
+            out += composite_paths(c, path + (k,))
+    return out
+
+
+def subtree(tree, path):
+    for step in path:
+        tree = tree[1][step] if tree[0] == "C" else dict(tree[1])[step]
+    return tree
+
+
+def replace_subtree(tree, path, new):
+    if not path:
+        return new
+    if tree[0] == "C":
+        return ("C", tuple(replace_subtree(c, path[1:], new) if i == path[0] else c for i, c in enumerate(tree[1])))
+    return ("P", tuple((k, replace_subtree(c, path[1:], new) if k == path[0] else c) for k, c in tree[1]), tree[2])
+
+
+def rearrangements(node):
+    """(label, child order as indices into the node's current children) - every proper re-arrangement of <= 3 children
+    that is a permutation or drops members (the empty composition included)"""
+    n = len(node[1])
+    seen, out = set(), []
+    for k in range(n + 1):
+        for perm in itertools.permutations(range(n), k):
+            if perm != tuple(range(n)) and perm not in seen:
+                seen.add(perm)
+                out.append(perm)
+    return out
+
+
+def ref_compose_hide(tree, name, leaves, hide, path=()):
+    if tree[0] == "D":
+        return leaves[tree[1]].get(name)
+    if tree[0] == "C":
+        if hide is not None and hide[0] == path and name == hide[1]:
+            return None
+        for i, c in enumerate(tree[1]):
+            r = ref_compose_hide(c, name, leaves, hide, path + (i,))
+            if r is not None:
+                return r
+        return None
+    delim = tree[2]
+    i = name.find(delim)
+    if i < 0:
+        return None
+    prefix, rest = name[:i], name[i + len(delim):]
+    for k, c in tree[1]:
+        if k == prefix:
+            return ref_compose_hide(c, rest, leaves, hide, path + (k,))
+    return None
+
+
+STRUCT_SHAPES = [2, 3, 7, 8, 9, 12]      # indices into SHAPES: every shape with a composite below or beside a ChoiceLoader
+
+
+def structure_shard(arg):
+    """Part 4: histories in which the COMPOSITION changes, not the leaves.  `ChoiceLoader.loaders` and
+    `PrefixLoader.mapping` are public attributes and the classes are documented as subclassable, so (a) re-assigning
+    or re-ordering the members of a composite at any depth after the first lookups, and (b) a nested ChoiceLoader
+    subclass with its own lookup rule, must be honoured by the enclosing loaders: the answer is the first loader of
+    the composition AS IT IS NOW that has the name, and a nested loader is asked as a whole."""
+    si, leafnames, assignments = arg
+    core.import_all_jinja()
+    import jinja2
+
+    p = core.Part()
+    tree = SHAPES[si]
+    kind = tree_kind(tree)
+    qs = queries(leafnames)
+    nleaves = leaf_count(tree)
+    comps = composite_paths(tree)
+
+    def resolve(what, loader, env, name):
+        try:
+            if what == "get_source":
+                return loader.get_source(env, name)[0], None
+            return env.get_template(name).render(), None
+        except jinja2.TemplateNotFound:
+            return None, None
+        except Exception as e:  # noqa: BLE001
+            return None, type(e).__name__
+
+    def judge(got, exc, ref):
+        if exc is not None:
+            return "raises-" + exc
+        if got == ref:
+            return None
+        if got is None:
+            return "notfound-instead-of-found"
+        if ref is None:
+            return "found-instead-of-notfound"
+        return "wrong-loader"
+
+    for asg in assignments:
+        leaves = [{n: "D%d has %s" % (i, n) for n in names} for i, names in enumerate(asg)]
+        names0 = [q for q in qs if ref_compose(tree, q, leaves) is not None]
+        if not names0:
+            continue
+        kinds = KIND_VECTORS[0][:nleaves]
+        # (b) a nested ChoiceLoader subclass that does not have one of the names
+        for (path, ck, _n) in comps:
+            if ck != "C" or not path:
+                continue
+            for hidden in sorted({q for q in names0} | set(leafnames)):
+                hide = (path, hidden)
+                refs = {q: ref_compose_hide(tree, q, leaves, hide) for q in names0 + [hidden]}
+                if all(refs[q] == ref_compose(tree, q, leaves) for q in refs):
+                    continue
+                for what in ("get_source", "load"):
+                    handles = {}
+                    loader = build_loader_handles(tree, leaves, kinds, handles, hide=hide)
+                    env = jinja2.Environment(loader=loader, cache_size=0)
+                    p.count("subclass_compositions", 1)
+                    for name, ref in refs.items():
+                        p.evals += 1
+                        got, exc = resolve(what, loader, env, name)
+                        bad = judge(got, exc, ref)
+                        if bad:
+                            p.violation(f"C28/compose-subclass/{kind}/{bad}/{what}", {
+                                "msg": f"{tree_repr(tree)} contents={leaves}; the ChoiceLoader at path {path} is a subclass whose "
+                                       f"get_source/load raise TemplateNotFound for {hidden!r}; {what}({name!r}): got {got!r}, reference {ref!r}",
+                                "script": _structure_script(tree, leaves, kinds, [], None, what, hide)})
+                        if ref != ref_compose(tree, name, leaves):
+                            p.sig(("subclass", si, path, name, (ref or "NF")[:2]))
+        # (a) the member list of one composite is re-arranged after the first lookups
+        for (path, ck, _n) in comps:
+            node = subtree(tree, path)
+            for perm in rearrangements(node):
+                if ck == "C":
+                    newnode = ("C", tuple(node[1][i] for i in perm))
+                else:
+                    newnode = ("P", tuple(node[1][i] for i in perm), node[2])
+                    if len(perm) == len(node[1]):
+                        continue    # a mapping has no order
+                newtree = replace_subtree(tree, path, newnode)
+                names = [q for q in qs if ref_compose(tree, q, leaves) is not None or ref_compose(newtree, q, leaves) is not None]
+                if all(ref_compose(tree, q, leaves) == ref_compose(newtree, q, leaves) for q in names):
+                    continue
+                for how in ("assign", "inplace"):
+                    for what in ("get_source", "load"):
+                        handles = {}
+                        loader = build_loader_handles(tree, leaves, kinds, handles)
+                        env = jinja2.Environment(loader=loader, cache_size=0)
+                        p.count("structure_histories", 1)
+                        obj = handles[path]
+                        for phase, cur in (("before", tree), ("after", newtree)):
+                            if phase == "after":
+                                if ck == "C":
+                                    members = [obj.loaders[i] for i in perm]
+                                    if how == "assign":
+                                        obj.loaders = members
+                                    else:
+                                        obj.loaders[:] = members
+                                else:
+                                    keep = {node[1][i][0] for i in perm}
+                                    if how == "assign":
+                                        obj.mapping = {k: v for k, v in obj.mapping.items() if k in keep}
+                                    else:
+                                        for k in [k for k in obj.mapping if k not in keep]:
+                                            del obj.mapping[k]
+                            for name in names:
+                                p.evals += 1
+                                ref = ref_compose(cur, name, leaves)
+                                got, exc = resolve(what, loader, env, name)
+                                bad = judge(got, exc, ref)
+                                if bad:
+                                    p.violation(f"C28/compose-structure/{kind}/{phase}-change/{bad}/{what}", {
+                                        "msg": f"{tree_repr(tree)} contents={leaves}: resolve {names}, then make the composite at path "
+                                               f"{path} hold members {list(perm)} of its former members ({how}), i.e. {tree_repr(newtree)}; "
+                                               f"{what}({name!r}) [{phase} the change]: got {got!r}, reference {ref!r}",
+                                        "script": _structure_script(tree, leaves, kinds, names, (path, ck, perm, how), what, None)})
+                                if phase == "after" and ref != ref_compose(tree, name, leaves):
+                                    p.sig(("structure", si, path, perm, name, (ref or "NF")[:2]))
+                p.sample({"composition": tree_repr(tree), "contents": leaves,
+                          "history": ["resolve %r" % (names,), "composite at %r keeps members %r" % (path, list(perm)), "resolve again"]}, cap=1)
+    return p
+
+
+def _structure_script(tree, leaves, kinds, names, change, what, hide):
+    s = ("import jinja2\nfrom checks import c28\n"
+         f"tree, leaves, kinds, names, what, hide = {tree!r}, {leaves!r}, {kinds!r}, {names!r}, {what!r}, {hide!r}\n"
+         "handles = {}\nloader = c28.build_loader_handles(tree, leaves, kinds, handles, hide=hide)\n"
+         "env = jinja2.Environment(loader=loader, cache_size=0)\n"
+         "print(c28.tree_repr(tree), 'contents', leaves, 'hide', hide)\n"
+         "def show(names):\n"
+         "    for name in names:\n"
+         "        try: got = loader.get_source(env, name)[0] if what == 'get_source' else env.get_template(name).render()\n"
+         "        except Exception as e: got = type(e).__name__\n"
+         "        print('  ', what, repr(name), '->', repr(got))\n")
+    if hide is not None:
+        return s + "show(sorted(set(c28.queries(())) ))\n"
+    path, ck, perm, how = change
+    s += "show(names)\n" + f"obj = handles[{path!r}]; perm = {list(perm)!r}\n"
+    if ck == "C":
+        s += "members = [obj.loaders[i] for i in perm]\n" + ("obj.loaders = members\n" if how == "assign" else "obj.loaders[:] = members\n")
+    else:
+        s += (f"keep = [list(obj.mapping)[i] for i in perm]\n"
+              + ("obj.mapping = {k: v for k, v in obj.mapping.items() if k in keep}\n" if how == "assign" else
+                 "[obj.mapping.pop(k) for k in list(obj.mapping) if k not in keep]\n"))
+    return s + "print('composite at', " + repr(path) + ", 're-arranged')\nshow(names)\n"
+
+
 def empty_variants(asg):
     """which (leaf, name) sources are the empty string: none, each single one, all of them"""
     pairs = [(i, n) for i, names in enumerate(asg) for n in names]
@@ -715,6 +964,7 @@ def run(ctx: core.Ctx):
         cshards += [(si, leafnames, c) for c in chunks(asg, 8 if ctx.quick else 32)]
     ctx.pmap(compose_shard, cshards)
     ctx.pmap(history_shard, cshards)
+    ctx.pmap(structure_shard, [c for c in cshards if c[0] in STRUCT_SHAPES])
     ctx.cov["bounds"] = {
         "max_segments": maxseg, "alphabet": [repr(s) for s in SEGS], "names_per_setup": 2 * sum(len(SEGS) ** k for k in range(1, maxseg + 1)),
         "extra_names_per_setup": len(extra_names(base)), "setups": [repr(s) for s in setups],
@@ -723,4 +973,9 @@ def run(ctx: core.Ctx):
         "empty_sources": "none / each single (leaf, name) / all",
         "query_names": len(queries(leafnames)), "compositions": ctx.counters.get("compositions", 0),
         "two_step_histories": ctx.counters.get("histories", 0),
+        "structure_histories": ctx.counters.get("structure_histories", 0),
+        "structure_shapes": [tree_repr(SHAPES[i]) for i in STRUCT_SHAPES],
+        "structure_changes": "every composite at every depth x every re-arrangement of its members (permutations and sub-lists, "
+                             "empty included) x {attribute re-assigned, list/dict changed in place} x {get_source, load}",
+        "subclass_compositions": ctx.counters.get("subclass_compositions", 0),
     }
